@@ -1,7 +1,11 @@
 #!/bin/sh
-# Extract the model from the compiled Coq theories and build the driver.
+# Extract the model from the compiled Coq theories (one OCaml module per Coq module, in ext/) and build the driver.
 set -e
 cd "$(dirname "$0")"
-coqc -R ../coq Flamego Extract.v >/dev/null
-ocamlfind ocamlopt -O2 -w -a -package str model.mli model.ml sx.ml conv.ml c13.ml driver.ml -o driver 2>&1 || \
-ocamlfind ocamlopt -w -a model.mli model.ml sx.ml conv.ml c13.ml driver.ml -o driver
+rm -rf ext && mkdir -p ext
+(cd ext && coqc -R ../../coq Flamego ../Extract.v >/dev/null)
+rm -f Extract.vo Extract.vok Extract.vos Extract.glob .Extract.aux
+GLUE="sx.ml conv.ml $(ls g_*.ml) driver.ml"
+SRC=$(ocamlfind ocamldep -sort -I ext ext/*.ml ext/*.mli $GLUE)
+ocamlfind ocamlopt -O3 -w -a -I ext $SRC -o driver 2>/dev/null || ocamlfind ocamlopt -w -a -I ext $SRC -o driver
+rm -f *.cmi *.cmx *.o ext/*.cmi ext/*.cmx ext/*.o
